@@ -42,7 +42,7 @@ pub fn direct_checks(o: &Obs) -> Option<String> {
 
 pub fn run(ctx: &Ctx) -> i32 {
     let want = Want::all();
-    let shapes: [(usize, usize); 4] = [(2, 3), (3, 2), (1, 4), (4, 1)];
+    let shapes: Vec<(usize, usize)> = if ctx.tier == Tier::Thorough { vec![(2, 3), (3, 2), (1, 4), (4, 1), (3, 3), (2, 5), (5, 2)] } else { vec![(2, 3), (3, 2), (1, 4), (4, 1)] };
     // variant: 0 plain, 1 one linked cell, 2 one tilemap layer, 3 one hidden layer, 4 non-Normal blend, 5 hidden group parent,
     // 6 every layer at opacity 255 with cels fully inside the canvas and reduced cel opacity
     let mut cases = Vec::new();
@@ -54,7 +54,7 @@ pub fn run(ctx: &Ctx) -> i32 {
         }
     }
     let fam = "cells";
-    ctx.family(fam, cases.len() as u64, "shapes (frames,layers) in {(2,3),(3,2),(1,4),(4,1)}: every subset of the F*L cells present, each with unique offset, pixels, opacity and user-data record; variants: plain / one linked cell / a tilemap layer / a hidden layer / a non-Normal blend mode / a hidden group parent / all layers at opacity 255 with in-canvas cels of reduced cel opacity. Three routes must agree; single-visible-layer frames must equal the cel image; tilemap image must equal its cel image (checked directly on the library's outputs and against the model)", true);
+    ctx.family(fam, cases.len() as u64, "shapes (frames,layers) in {(2,3),(3,2),(1,4),(4,1)} (thorough: + (3,3),(2,5),(5,2)): every subset of the F*L cells present, each with unique offset, pixels, opacity and user-data record; variants: plain / one linked cell / a tilemap layer / a hidden layer / a non-Normal blend mode / a hidden group parent / all layers at opacity 255 with in-canvas cels of reduced cel opacity. Three routes must agree; single-visible-layer frames must equal the cel image; tilemap image must equal its cel image (checked directly on the library's outputs and against the model)", true);
     let fmt = Fmt::Rgba;
     cases.par_iter().for_each(|(si, m, variant)| {
         let case = || format!("shape={:?} present={:b} variant={}", shapes[*si], m, variant);
